@@ -10,7 +10,7 @@ import (
 func init() {
 	register(&property{
 		ID:          "C17",
-		Explanation: "Static decision of the throttle's token discipline by path evaluation: (R1/R2) throttledConn.Read over every ordering of len(p) against the bursts of the limiters present (none/total/local/both): the batch is min(len(p), bursts); every present limiter is asked WaitN(ctx, batch) before the single underlying Read, which is given exactly p[:batch]; a failed wait reads nothing; (R4) the underlying read's (n, err) is returned unchanged; (R3) Handle installs a throttledConn around the previous cx.Conn carrying the handler's total limiter unconditionally and a fresh per-connection limiter iff a per-connection limit is configured, before calling next; with latency configured next is reached only after the timer fired, and cancellation returns without calling next.",
+		Explanation: "Static decision of the throttle's token discipline by path evaluation: (R1/R2) throttledConn.Read over every ordering of len(p) against the bursts of the limiters present (none/total/local/both): the batch is min(len(p), bursts); every present limiter is asked WaitN(ctx, batch) before the single underlying Read, which is given exactly p[:batch]; a failed wait reads nothing; (R4) the underlying read's (n, err) is returned unchanged; (R3) Handle installs a throttledConn around the previous cx.Conn carrying the handler's total limiter unconditionally and a fresh per-connection limiter iff a per-connection limit is configured, before calling next; with latency configured next is reached only after the timer fired, and cancellation returns without calling next. The Handle table also covers handlers without any limit: the latency wait must precede next in every configuration.",
 		NotDecided:  "The numeric bound burst + rate x T (x/time/rate is trusted to honour WaitN), timing, bytes already prefetched into the matching buffer before the throttle handler runs (they bypass the limiter).",
 		Run:         runC17,
 	})
